@@ -247,12 +247,23 @@ func (sf *SpecFile) load(path string, extern bool) error {
 				return fail(l, "%v", err)
 			}
 			sf.ChanInvs[strings.TrimSpace(rest[:i])] = &Clause{Kind: "chaninv", Text: strings.TrimSpace(rest[i+1:]), Expr: e, File: path, Line: l.line}
-		case first == "axiom":
+		case first == "axiom" || strings.HasPrefix(first, "axiom["):
+			// axiom[when sym] expr : only assumed in functions whose contracts mention sym
+			when := ""
+			if strings.HasPrefix(first, "axiom[") {
+				// the bracket may contain a space: re-split
+				cl := strings.Index(t, "]")
+				if cl < 0 {
+					return fail(l, "bad axiom head")
+				}
+				when = strings.TrimSpace(strings.TrimPrefix(t[len("axiom["):cl], "when"))
+				rest = strings.TrimSpace(t[cl+1:])
+			}
 			e, err := parseExpr(rest)
 			if err != nil {
 				return fail(l, "%v", err)
 			}
-			sf.Axioms = append(sf.Axioms, &Clause{Kind: "axiom", Text: rest, Expr: e, File: path, Line: l.line})
+			sf.Axioms = append(sf.Axioms, &Clause{Kind: "axiom", Text: rest, Expr: e, File: path, Line: l.line, Label: when})
 		case strings.HasPrefix(first, "lemma"):
 			// lemma[C09:name] expr
 			props, label := parsePropsLabel(strings.TrimPrefix(first, "lemma"))
